@@ -203,6 +203,9 @@ def e2e_molecule_indels(args):
     return out
 
 
+REPLAY = ("Trace_Indels", "Trace_Indels.cfg", None, ("via", "finder", "tag"))     # the stored result is judged as recorded
+
+
 def run(ctx: Ctx):
     quick = ctx.tier == "quick"
     rng = random.Random(ctx.seed * 523 + 20)
